@@ -3,6 +3,8 @@ path on which a constructor / crop check returns Ok (DESIGN §4 C04). The specs 
 from the property statement; the accepted fact forms are enumerated here."""
 from ..cfg import Dom
 from ..facts import CheckError
+import re
+
 from ..sym import Sym, atoms, fmt
 from .ranges import Ctx, FLIP, NEG, strip_widen, same, mentions
 
@@ -545,3 +547,43 @@ def _on_ok_side(f, sym, dom, call, b):
                 if val == 0 and dom.dominates(s, b):
                     return True
     return False
+
+
+def unchecked_crop(rep, prog, rule):
+    rep.rule(rule, "CroppedSrcImageView::crop_unchecked (which skips the NaN / sign / bounds "
+             "validation of the f64 crop box) is only called with the box of an already validated "
+             "CroppedSrcImageView (crop_box(x)) or with a literal box built from the view's own "
+             "width()/height(); a box that comes from the options (user crop, fit-into-destination, "
+             "whole-image default) must go through CroppedSrcImageView::crop")
+    n = 0
+    for f in sorted(prog.fns.values(), key=lambda x: x.id):
+        for c in f.calls():
+            if not c.name.endswith("crop_unchecked") or len(c.args) < 2:
+                continue
+            n += 1
+            rep.touch(f)
+            sym = Sym(f)
+            box = sym.operand(c.args[1], (c.bb, "term"))
+            b = box
+            while b[0] == "cast":
+                b = b[2]
+            key = "%s|crop_unchecked" % f.name
+            s = fmt(b)
+            if b[0] in ("call", "callat") and (b[1] if b[0] == "call" else b[2]) == "crop_box":
+                rep.ok(rule, key, c.at, "box = %s (validated when that view was built)" % s[:80])
+            elif b[0] == "agg" and b[1] == "adt" and b[2].endswith("CropBox"):
+                ops = [fmt(o) for o in b[4]]
+                if ops[0] in ("0.0", "0") and ops[1] in ("0.0", "0") and "width(" in ops[2] \
+                        and "height(" in ops[3]:
+                    rep.ok(rule, key, c.at, "literal box (0, 0, width(), height())")
+                else:
+                    rep.unk(rule, key, c.at, "literal box %s" % ops)
+            elif re.search(r"get_crop_box|fit_src_into_dst_size|options|SrcCropping|\bcrop_box\b(?!\()", s):
+                rep.bad(rule, key, c.at, "%s hands the unvalidated box %s to crop_unchecked: a box "
+                        "computed from the options can be NaN (f64::clamp keeps NaN, so "
+                        "fit_into_destination(Some((NaN, 0.5))) yields left = NaN), negative or "
+                        "outside the image, and is then accepted instead of being rejected with "
+                        "CropBoxError" % (f.name, s[:120]))
+            else:
+                rep.unk(rule, key, c.at, "box = %s: provenance not recognised" % s[:120])
+    rep.floor(rule, "crop_unchecked call sites", n, 1)
